@@ -165,5 +165,30 @@ def _all_found(c, some_missing):
     return z3.Not(some_missing(c))
 
 
+Dirname = z3.Function('PathDirname', Val, Val)
+Cwd = z3.Const('WorkingDirectory', Val)
+
+
+def register_lookup_order(R):
+    """Builder.get_lookup_dirs (C06): 'included names resolve relative to the including file first and then the working directory' - the
+    generator yields the directory of the reference file (when there is one) BEFORE the working directory, and nothing else.
+    os.path.dirname is an uninterpreted function, os.getcwd() an uninterpreted constant (the working directory does not change
+    while the generator runs)."""
+    R.opaque['os.path.dirname'] = lambda it, a, kw, n, fr: SV(Dirname(it.sv(a[0], n).t))
+    R.opaque['os.getcwd'] = lambda it, a, kw, n, fr: SV(Cwd)
+
+    def ens(c):
+        y = c.post.l(c.x['yields'])
+        ref = c['ref_point']
+        return [('C06.directory-of-the-including-file-first-then-the-working-directory',
+                 z3.If(is_none(ref), z3.And(y.len == 1, y.get(0) == Cwd), z3.And(y.len == 2, y.get(0) == Dirname(ref), y.get(1) == Cwd)))]
+
+    R.add(Contract(B_ + 'Builder.get_lookup_dirs', [P.node('self', 'Builder'), P.val('ref_point', 'any')], name='order', pure=True,
+                   ensures=[('lookup', ens)], props=('C06',), opts={'verify_only': True, 'no_search': True, 'no_model_replay': True},
+                   note='generator; the yielded directories are recorded in a ghost list. SubBuilder.get_lookup_dirs hands on the parent builder\'s generator '
+                        '(one line, not under contract); IncludeNode.on_preprocess_impl is proved against an abstract, order-preserving view of that list'))
+
+
 def _reg_all(R):
     register(R)
+    register_lookup_order(R)
